@@ -30,7 +30,9 @@ MCTemplates == <<
   T({3},          <<S(-3, 2), S(3, NONE)>>,      3, 2, FALSE),
   T({2, 4},       <<S(NONE, NONE)>>,             1, 2, FALSE),
   T({1, 2},       <<S(NONE, NONE)>>,             1, 3, FALSE),
-  T({1, 2, 3, 4}, <<S(6, 2)>>,                   1, 2, FALSE)
+  T({1, 2, 3, 4}, <<S(6, 2)>>,                   1, 2, FALSE),
+  T({1, 2},       <<S(12, 2)>>,                  1, 2, FALSE),      \* user N above the axis: must block, not crash
+  T({3, 4},       <<S(-11, NONE), S(NONE, NONE)>>, 1, 2, FALSE)     \* user N below the axis, M free
 >>
 
 \* emission for the spec -> code replay (B2): one JSON line per complete history
